@@ -39,6 +39,8 @@ type H interface {
 	Conc(k int) int
 	Bool(k int) bool
 	Emitter(k int) cff.Emitter
+	// SharedEmitter returns an emitter value shared by all executions of the run.
+	SharedEmitter() cff.Emitter
 	Coll(id int) []uint64
 	MapColl(id int) [][2]uint64
 }
